@@ -31,6 +31,18 @@ Theorem C08_encoder : forall ps, Forall wf_fields ps ->
 Proof. exact C08_encoder_roundtrip. Qed.
 Print Assumptions C08_encoder.
 
+(* the encoder as a state machine over a HISTORY of Encode calls, some of which fail (a value that cannot be marshalled,
+   anywhere in a slice): whatever was written - every element before the first failure of each call - reads back as
+   exactly those paragraphs, in order: never one fewer, never two glued together *)
+Require ENC.
+Theorem C08_encoder_history : forall calls, Forall (Forall ENC.elem_ok) calls ->
+  read_all (ENC.out (ENC.enc_calls ENC.enc_init calls)) = Some (map para_of (ENC.written_of calls)).
+Proof. exact ENC.encoder_history_reads_back. Qed.
+Theorem C08_encoder_history_count : forall calls ps, Forall (Forall ENC.elem_ok) calls ->
+  read_all (ENC.out (ENC.enc_calls ENC.enc_init calls)) = Some ps -> List.length ps = List.length (ENC.written_of calls).
+Proof. exact ENC.encoder_history_count. Qed.
+Print Assumptions C08_encoder_history.
+
 (* the writer the tie executes tests blank lines with Go's Unicode whitespace (R2u); on values without the UTF-8
    encoding of a non-ASCII Unicode space it folds exactly as the writer of the theorems above *)
 Require R2u.
